@@ -262,10 +262,11 @@ func c08Alphabet64(bd int, f32 bool) []int64 {
 func c08Run(c *core.Ctx) {
 	var evals, distinct atomic.Int64
 	inst, exh := 0, 0
-	for _, s := range []int{dyn.Float32, dyn.Float64} {
-		for d := 0; d < dyn.NB; d++ {
+	for _, sd := range instOrder() {
+		{
+			s, d := sd[0], sd[1]
 			ts, td := dyn.Types[s], dyn.Types[d]
-			if td.Kind == dyn.Float {
+			if ts.Kind != dyn.Float || td.Kind == dyn.Float {
 				continue
 			}
 			inst++
@@ -359,6 +360,7 @@ func c08Run(c *core.Ctx) {
 	}
 	c.Set("evaluations", evals.Load())
 	c.Set("distinct_nontrivial", distinct.Load())
+	c.ReverseOrderPass("mc-shim")
 	c.Set("instantiations", inst)
 	c.Set("instantiations_with_exhaustive_source_domain", exh)
 	c.Set("exhaustive", exh == inst)
@@ -370,6 +372,7 @@ func init() {
 	core.Register(&core.Prop{
 		ID: "C08", Level: "exploration", Design: "§5 C08",
 		Run:     c08Run,
+		Worker:  core.SweepWorker,
 		RunCase: func(c *core.Ctx, raw json.RawMessage) []F { return c08EvalCase(decode[c08Case](raw)) },
 	})
 }
